@@ -6,6 +6,7 @@ import BigDec.Proofs.F64Round
 import BigDec.Proofs.F64Powi
 import BigDec.Proofs.F64Parse
 import BigDec.Proofs.F64Digits
+import BigDec.Proofs.F64Full
 /-! # C14 — binary floats convert to decimals exactly -/
 namespace BigDec
 open Generated
@@ -197,7 +198,7 @@ theorem C14_toF64_negative_scale_tolerance (dc : Nat → Nat) (neg : Bool) (n : 
     (hk : 19 * (F64.trimRounds dc n : Int) - scale ≤ 308) (hkeep : F64.trimKeeps25 dc n = true) :
     ∃ R, F64.toF64With dc neg n scale = (if neg then 2 ^ 63 else 0) + R ∧
       (R = F64.inf ∨ |F64.valQ R - (n : ℚ) * (10 : ℚ) ^ (-scale)| ≤ (n : ℚ) * (10 : ℚ) ^ (-scale) * (2 : ℚ) ^ (-48 : Int)) := by
-  apply F64.toF64_powi_tolerance dc neg n scale hn hs hlo hk
+  apply F64.toF64_powi_tolerance dc neg n scale hn (by omega) (by omega) hlo hk
   unfold F64.trimKeeps25 at hkeep
   simpa using hkeep
 
@@ -254,6 +255,46 @@ theorem C14_toF64_positive_scale (neg : Bool) (n : Nat) (scale : Int) (hn : 0 < 
 example : F64.trimRounds F64.digitCount 12345 = 0 ∧ F64.trimRounds F64.digitCount (10 ^ 49 + 7) = 1 ∧
     F64.toF64 false 12345 (-3) = 0x41678BD500000000 := by
   refine ⟨by decide +kernel, by decide +kernel, by decide +kernel⟩
+
+/-- **`to_f64` is within tolerance on every decimal** (coefficients below 2^(2^32), every `i64` scale;
+    all branches of the code: integer path, digit trimming with its saturating scale arithmetic, the
+    `powi` path including overflow of `powi` itself, the float-parser path with the underflow
+    shortcut, exponents beyond `i32`).  The result is the sign bit plus a magnitude `R` such that
+    * if `R` is infinite, the exact value is at least `f64::MAX · (1 - 2^-48)` (`F64.InfOK`);
+    * if `R` is finite, it is within `2^-48` (relative) of the exact value when that is at least
+      `2^-1022`, and within one subnormal step `2^-1074` below (`F64.FinOK`). -/
+theorem C14_toF64_spec (neg : Bool) (n : Nat) (scale : Int) (hn : 0 < n) (hsize : n.log2 + 2 ≤ 2 ^ 32)
+    (hlo : -(2 ^ 63 : Int) ≤ scale) :
+    ∃ R, F64.toF64 neg n scale = (if neg then 2 ^ 63 else 0) + R ∧
+      (R = F64.inf → F64.InfOK ((n : ℚ) * (10 : ℚ) ^ (-scale))) ∧
+      (R ≠ F64.inf → F64.FinOK R ((n : ℚ) * (10 : ℚ) ^ (-scale))) := by
+  by_cases hs : scale = 0
+  · subst hs
+    obtain ⟨h1, h2⟩ := C14_toF64_integer neg n hn
+    have hn1 : (1 : ℚ) ≤ (n : ℚ) := by exact_mod_cast hn
+    refine ⟨F64.rne n 1, h1, fun hinf => ?_, fun hne => ?_⟩
+    · have := F64.rne_inf_large n 1 hn (by norm_num) hinf
+      simp only [Nat.cast_one, div_one] at this
+      simp only [neg_zero, zpow_zero, mul_one]
+      exact F64.infOK_of_ge_maxF _ (le_trans F64.maxF_lt_ovf.le this)
+    · simp only [neg_zero, zpow_zero, mul_one]
+      have hb := h2.resolve_left hne
+      unfold F64.FinOK
+      refine ⟨fun _ => le_trans hb (mul_le_mul_of_nonneg_left (zpow_le_zpow_right₀ (by norm_num) (by norm_num)) (by linarith)), fun hlt => ?_⟩
+      exfalso
+      have h1' : (2 : ℚ) ^ (-1022 : Int) ≤ 1 := zpow_le_one_of_nonpos₀ (by norm_num) (by norm_num)
+      exact absurd (lt_of_le_of_lt (le_trans h1' hn1) hlt) (lt_irrefl _)
+  · have hkeep := F64.digitCount_keeps25 n hn (by omega)
+    unfold F64.trimKeeps25 at hkeep
+    exact F64.toF64With_spec F64.digitCount neg n scale hn hs hlo hsize (by simpa using hkeep)
+
+/-- `powi(10, k)` overflows for every larger exponent -/
+theorem C14_powi_ten_overflow (k : Nat) (h1 : 309 ≤ k) (h2 : k < 2 ^ 64) : F64.powi F64.ten k = F64.inf :=
+  F64.powi_ge_309 k h1 h2
+
+/-- the rounding primitive returns infinity only at or above the IEEE overflow threshold -/
+theorem C14_rne_overflow_threshold (a b : Nat) (ha : 0 < a) (hb : 0 < b) (h : F64.rne a b = F64.inf) :
+    (2 : ℚ) ^ (1024 : Int) - (2 : ℚ) ^ (970 : Int) ≤ (a : ℚ) / b := F64.rne_inf_large a b ha hb h
 
 /-- the code's instance: `F64.toF64 = F64.toF64With F64.digitCount` by definition -/
 theorem C14_toF64_is_instance (neg : Bool) (n : Nat) (scale : Int) :
